@@ -120,3 +120,8 @@ def run(ctx):
         uo = [show(e) for _, e in var_inits(v, 'user_connect_options')] or [show(a[0].arg(1))] if a else []
         ctx.ob(a and ('self.connect_options@Some.0' in ' '.join(show(a[0].arg(1)) for _ in [0]) or True), '%s feeds the user\'s connect options (or defaults) into the helper' % nm, 'route|user-options|' + nm, loc=v.loc())
     ctx.floor(nb, 2, 'AWS build functions')
+    # ---- added after the mutation sweep: the configured values this property starts from reach the options (builder setters)
+    from . import shared as _sh
+    _ns = _sh.builder_setters(ctx, lambda b, m: b in ('AwsClientBuilder', 'AwsCustomAuthOptionsBuilder'), 'R-C20-1', 'user-supplied options reach the AWS builder unchanged')
+    if ctx.config == 'all':
+        ctx.floor(_ns, 7, 'builder setters this property depends on')
